@@ -90,6 +90,7 @@ type FrameClause struct {
 // (default: every) call to the callee in the function under contract; "result" names the call's result.
 type AfterClause struct {
 	Assume  bool
+	Env     bool
 	Callee  string
 	Ordinal int
 	Clause  *Clause
@@ -379,8 +380,14 @@ func (cs *Contracts) loadFile(path string) error {
 			parts := strings.SplitN(rest, " assert ", 2)
 			ac := &AfterClause{}
 			if len(parts) != 2 {
+				// an assumption about the caller's input that only the callee can judge ("this request is one the callee
+				// accepts"): restricted to '<error result> == nil', always listed among the assumptions of the evidence
+				parts = strings.SplitN(rest, " env-assume ", 2)
+				ac.Assume, ac.Env = true, true
+			}
+			if len(parts) != 2 {
 				parts = strings.SplitN(rest, " assume ", 2)
-				ac.Assume = true
+				ac.Assume, ac.Env = true, false
 			}
 			if len(parts) != 2 {
 				return fmt.Errorf("%s:%d: after needs '<callee> assert|assume <expr>'", path, rc.line)
@@ -399,7 +406,21 @@ func (cs *Contracts) loadFile(path string) error {
 				return err
 			}
 			ac.Clause = c
-			if ac.Assume && !onlyAxiomInstances(c.Expr) {
+			if ac.Env {
+				b, ok := c.Expr.(*CBinary)
+				okShape := false
+				if ok && b.Op == "==" {
+					if id, isID := b.L.(*CIdent); isID && strings.HasPrefix(id.Name, "result") {
+						if _, isNil := b.R.(*CNil); isNil {
+							okShape = true
+						}
+					}
+				}
+				if !okShape || c.Label == "" {
+					return fmt.Errorf("%s:%d: 'after ... env-assume' must be '#E-label resultN == nil'", path, rc.line)
+				}
+			}
+			if ac.Assume && !ac.Env && !onlyAxiomInstances(c.Expr) {
 				return fmt.Errorf("%s:%d: 'after ... assume' may only contain engine-axiom instances (cnt_mono) under && and forall", path, rc.line)
 			}
 			curF.After = append(curF.After, ac)
